@@ -370,6 +370,7 @@ class History(BfsSuite):
         self.near = False                   # True: the cell value 2 stands for 1.0 + 1e-9
         self.tz = False                     # True: stamps are aware UTC datetimes, read times the same instants spelt in +02:00
         self.zero = False                   # True: the cell value 2 stands for 0.0
+        self.extend_after_remerge = False   # True: every re-merge of an OLDER version is followed by one more publication, read against the model
 
     def initial(self):
         return [[]]
@@ -485,6 +486,7 @@ class History(BfsSuite):
 
         # ---- idempotence edges: computed BEFORE any read touches A
         remerged = []
+        remerged_all = []
         seen = []
         for vd, si in pubs:
             if [vd, si] in seen:
@@ -505,6 +507,7 @@ class History(BfsSuite):
             if snap(A) != sa or snap(b) != sb:
                 out.viol('input-mutated', '%s ; RE-MERGE %s@s%d: bi_merge changed its %s' % (H, vd, si + 1, 'store' if snap(A) != sa else 'new frame'),
                          which='remerge')
+            remerged_all.append((vd, si, R))
             if fingerprint(R) == fpA:
                 # the edge leads back to the very same store (frame content identical): its reads are the reads of A
                 out.cls('remerge-selfloop')
@@ -529,7 +532,7 @@ class History(BfsSuite):
                 return None
             return r
 
-        def read_all(st, label, sigvia):
+        def read_all(st, label, sigvia, model=model, pubs=pubs):
             """the 16 reads of one store, each compared with the model"""
             got = {}
             for T in READS_T:
@@ -560,6 +563,28 @@ class History(BfsSuite):
             return got
 
         readsA = read_all(A, 'store', 'replay')
+
+        # ---- the read time is an instant however it is spelt: numpy.datetime64 (as found in store['updated'].values) and pandas.Timestamp read like the datetime
+        if self.extend_after_remerge and not self.tz:
+            for T in READS_T:
+                if T[2] is None:
+                    continue
+                for w in WHATS:
+                    base_ = readsA[(T[0], w)]
+                    if base_ is None:
+                        continue
+                    for sname, sp in (('numpy.datetime64[us]', np.datetime64(T[2], 'us')), ('numpy.datetime64[ns]', np.datetime64(T[2], 'ns')), ('pandas.Timestamp', pd.Timestamp(T[2]))):
+                        try:
+                            res = bi_read(A, asof=sp, what=w)
+                            out.call()
+                            r, problem = rows_of(res)
+                        except Exception as e:
+                            out.viol('read-raised', '%s: bi_read(store, asof=%s as %s, what=%d) raised %s: %s' % (H, T[0], sname, w, type(e).__name__, e),
+                                     what=w, at=T[3], via='spelling', exc=type(e).__name__)
+                            continue
+                        if problem or not same_rows(base_, r):
+                            out.viol('read-wrong', '%s: bi_read(store, asof=%s, what=%d) gives %s when T is a %s but %s when it is a datetime' % (
+                                H, T[0], w, problem or show_rows(r), sname, show_rows(base_)), what=w, at=T[3], via='spelling', spelling=sname.split('[')[0])
 
         # ---- no leak, asserted directly: read(T) on the full store == read(T) on the store of the publications <= T
         for T in READS_T:
@@ -602,6 +627,25 @@ class History(BfsSuite):
                     if r is not None and not same_rows(now, r):
                         out.viol('remerge-changed-read', '%s ; RE-MERGE %s@s%d: bi_read(asof=%s, what=%d) was %s and became %s' % (
                             H, vd, si + 1, T[0], w, show_rows(now), show_rows(r)), what=w, at=T[3], decreasing=si < stamps[-1])
+
+        # ---- the store a re-merge returns is a store like any other: the NEXT publication merged into it reads as if the re-merge had never happened
+        if self.extend_after_remerge:
+            ext_versions = self.versions if len(self.versions) <= 3 else ONE_DATE_VERSIONS
+            for vd, si, R in remerged_all:
+                if si == stamps[-1]:
+                    continue          # re-merging the newest version: the ordinary same-stamp histories cover what follows
+                for esi in range(stamps[-1], len(S)):
+                    for evd in ext_versions:
+                        try:
+                            R2 = bi_merge(R, Bi(mk(evd), stamp(esi)))
+                            out.call()
+                        except Exception as e:
+                            out.viol('merge-raised', '%s ; RE-MERGE %s@s%d ; merge(%s @s%d): bi_merge raised %s: %s' % (H, vd, si + 1, evd, esi + 1, type(e).__name__, e),
+                                     exc=type(e).__name__, form='after-remerge')
+                            continue
+                        pubs2 = pubs + [(evd, esi)]
+                        read_all(R2, 'store after RE-MERGE %s@s%d ; merge(%s @s%d)' % (vd, si + 1, evd, esi + 1), 'after-remerge', Model(pubs2), pubs2)
+                        out.cls('publication-after-remerge')
 
         # ---- B: the same history with a read of the latest state after every merge (bi_read renames the index of
         # the store in place); when the resulting store differs in any way from A all reads are checked on it too
@@ -841,11 +885,15 @@ def suites(tier, seed):
         first = VERSIONS
         depth = 3
     n1 = len(ONE_DATE_VERSIONS)
+    def _ext(h, on):
+        h.extend_after_remerge = on
+        return h
+    xrule = '; after every re-merge of an older version still current at its stamp, one more publication (%s) read against the model'
     return [
-        History('history', depth, rule % (depth, nv), dict(common), VERSIONS),
+        _ext(History('history', depth, rule % (depth, nv) + (xrule % 'the 3 versions of date d1 x every stamp >= the last' if tier != 'quick' else ''), dict(common), VERSIONS), tier != 'quick'),
         # one level deeper over a single date: a revert (1, 2, 1) / NaN-in-the-middle needs three publications of one date
-        History('onedate', depth + 1, rule % (depth + 1, n1) + '; versions restricted to date d1',
-                dict(common, dates=1, versions=n1), ONE_DATE_VERSIONS),
+        _ext(History('onedate', depth + 1, rule % (depth + 1, n1) + '; versions restricted to date d1' + xrule % 'every version x every stamp >= the last',
+                     dict(common, dates=1, versions=n1), ONE_DATE_VERSIONS), True),
         Suite('wide', lambda: gen_wide(3 if tier == 'quick' else 4), check_wide,
               rule='stores of more than 16 rows: every sequence of 2..%d publications over %d observation dates (the same value on every date, NaN, alternating, '
                    'every other date) x non-decreasing stamps from {s1, s2}; reads at s1, s2 and latest against the publication-list model; non-trivial = two '
